@@ -125,6 +125,8 @@ def sizing_paths(ctx, cname):
                 l1, lp = lp, second[0]
                 ren = lambda t, a=l1.id, b=lp.id: T.replace(t, lambda z: ('elem', z[1], b) if (z[0] == 'elem' and z[-1] == a) else None)
                 carried_fee = [_rename_ev(e, ren) for e in l1.paths[0].flat_events() if e.kind == 'call' and any(is_fee(c) for c in e.callee)]
+        if not lp.is_for:
+            continue            # a work-list loop (while pending: x = pending.popleft()): which assets it visits is not read off its header
         bodies = []
         container = None
         for b in lp.paths:
